@@ -463,7 +463,13 @@ def work_sched_bilform(item):
             this = spec
             # every completion order of an unordered API
             if info['n_orders'] > 1 and not problems:
-                for rank in range(1, info['n_orders']):
+                ranks = range(1, info['n_orders'])
+                if info['n_orders'] > MAX_ORDERS:
+                    # factorially many completion orders: a fixed spread of ranks (first, last = reversed, and evenly spaced ones)
+                    no_ = info['n_orders']
+                    ranks = sorted({1, 2, no_ - 1, no_ - 2} | {(no_ * q_) // MAX_ORDERS for q_ in range(1, MAX_ORDERS)})
+                    out['orders_capped'] = out.get('orders_capped', 0) + 1
+                for rank in ranks:
                     s2 = sched_spec(cname, kind, lists, cpu, assign, rank)
                     pr2, _, _ = bilform_call(s2, SL, nodes)
                     out['n'] += 1
@@ -601,7 +607,7 @@ def work_sched_linform(item):
                 rp['prev'] = prev
                 out['viols'].append(({'clause': 'schedule', 'fn': 'linform_vector'}, describe(spec) + ': ' + p, rp))
         if info['n_orders'] > 1 and not problems:
-            for rank in range(1, info['n_orders']):
+            for rank in capped_ranks(info['n_orders']):
                 s2 = dict(spec)
                 s2['rank'] = rank
                 pr2, _, _ = linform_call(s2, M0, nodes)
@@ -744,7 +750,7 @@ def work_sched_est(item):
                                      '{} on {} (4 elements, N_poly={}) cpu={} schedule={}: {}'.format(
                                          fn, item['curve'], item['npoly'], item['cpu'], list(assign), p), spec))
         if info['n_orders'] > 1 and not problems:
-            for rank in range(1, info['n_orders']):
+            for rank in capped_ranks(info['n_orders']):
                 s2 = dict(spec)
                 s2['rank'] = rank
                 pr2, _, _ = est_call(s2)
@@ -1150,6 +1156,14 @@ PARAMS = {
                      crash_vec=(('UnitSquare', 6), ('LShape', 5), ('UnitSquare', 3)), hist_depth=4, selftest_pools=1000),
 }
 MAX_PARTITIONS = 40000
+MAX_ORDERS = 6  # completion orders of an unordered pool API explored per schedule (all of them up to 4 chunks)
+
+
+def capped_ranks(n_orders):
+    """All completion orders up to MAX_ORDERS, otherwise a fixed spread of ranks (first, last = reversed, evenly spaced)."""
+    if n_orders <= MAX_ORDERS:
+        return list(range(1, n_orders))
+    return sorted({1, 2, n_orders - 1, n_orders - 2} | {(n_orders * q_) // MAX_ORDERS for q_ in range(1, MAX_ORDERS)})
 
 
 def split_ranges(total, batch):
